@@ -131,9 +131,20 @@ pub fn vm(line: &str) -> String {
     pest::set_error_detail(detail);
     pest::set_call_limit(std::num::NonZeroUsize::new(limit));
     let r = guarded(move || {
-        let (_, rules) = match pest_meta::parse_and_optimize(&text) {
-            Ok(x) => x,
-            Err(es) => return format!("GRAMMAR-ERR {}", es.len()),
+        // the optimized rules of the previous request's grammar are kept (consecutive requests mostly share the grammar);
+        // the Vm itself is built anew for every request
+        thread_local! { static LAST: std::cell::RefCell<Option<(String, Vec<pest_meta::optimizer::OptimizedRule>)>> = const { std::cell::RefCell::new(None) }; }
+        let cached = LAST.with(|l| l.borrow().as_ref().filter(|(t, _)| *t == text).map(|(_, r)| r.clone()));
+        let rules = match cached {
+            Some(r) => r,
+            None => {
+                let (_, rules) = match pest_meta::parse_and_optimize(&text) {
+                    Ok(x) => x,
+                    Err(es) => return format!("GRAMMAR-ERR {}", es.len()),
+                };
+                LAST.with(|l| *l.borrow_mut() = Some((text.clone(), rules.clone())));
+                rules
+            }
         };
         let vm = pest_vm::Vm::new(rules);
         for earlier in &inputs[..inputs.len() - 1] {
